@@ -138,6 +138,11 @@ func runC06(c *fw.Ctx) {
 			e.Deliver(g.GrantPlan(ow, grantee, t))
 		}
 	}
+	// the rich account 0 stands in for everybody's fees (x/feegrant): the granter is charged, yet the
+	// statement binds admission to what the FEE PAYER can cover
+	for _, ow := range owners {
+		e.Deliver(g.FeeGrantPlan(ac[0], ow))
+	}
 	// registrations by rich owners (exact fee, DeliverTx does not check amounts)
 	for rep := 0; rep < 2; rep++ { // two of each, so that one owner can address several registrations in one tx
 		for _, ow := range owners[:3] {
@@ -497,6 +502,15 @@ func runC06(c *fw.Ctx) {
 		if len(signers) > 1 {
 			spec.Payer = payer.Addr
 		}
+		granted := false
+		if nesting != "group-exec-try" && !payer.Addr.Equals(ac[0].Addr) && r.Chance(12) {
+			for _, ow := range owners {
+				if ow.Addr.Equals(payer.Addr) {
+					spec.Granter, granted = ac[0].Addr, true
+					c.Count("fee_granter_txs", 1)
+				}
+			}
+		}
 		bz, err := L.BuildTx(spec)
 		if err != nil {
 			continue
@@ -508,6 +522,10 @@ func runC06(c *fw.Ctx) {
 		desc := fmt.Sprintf("%s by a%d fee=%s (exact %s)", descMsgs(txMsgs), g.idx(signer), offered, want)
 		if len(signers) > 1 {
 			desc += fmt.Sprintf(" payer=a%d", g.idx(payer))
+		}
+		if granted {
+			desc += " granter=a0"
+			nesting += "/granter"
 		}
 		e.tracef("checktx %s -> code=%d %s", desc, chk.Code, firstN(chk.Log, 100))
 		c.Distinct(fmt.Sprintf("%s/%s/%s/%s/admitted=%v", strings.Join(shape, "+"), nesting, rel, extra, admitted))
